@@ -1,30 +1,5 @@
-/-
-Tier K: closed checks of the regenerated tables (`Gen/*`, through `T.*`) against the ISO tables of
-the specification side — KEEP_LAST, PERCENT_SCORE, MASKS, pad bytes. Each `…Ok : Bool` is evaluated by the kernel (`decide +kernel`).
-One module per concern, so that a damaged table breaks only the obligations that depend on it.
--/
-import FastQr.Model.Basic
-import FastQr.Spec.IsoTables
-import FastQr.Spec.IsoExtra
-import FastQr.Spec.BCH
-import FastQr.Spec.GF256
-import FastQr.Spec.Capacity
-
-namespace FastQr.Finite
-open FastQr
-
-/-! ### misc tables -/
-def keepLastOk : Bool := (List.range 65).all fun i => T.keepLast i == 2 ^ i - 1
-theorem keepLastOk_true : keepLastOk = true := by decide +kernel
-
-def percentOk : Bool :=
-  (List.range 100).all fun p => T.percentScore p == 10 * (if p ≥ 50 then (p - 50) / 5 else (49 - p) / 5)
-theorem percentOk_true : percentOk = true := by decide +kernel
-
-def masksOrderOk : Bool := T.masksOrder == [0, 1, 2, 3, 4, 5, 6, 7]
-theorem masksOrderOk_true : masksOrderOk = true := by decide +kernel
-
-def padOk : Bool := T.padBytes == (0xEC, 0x11)
-theorem padOk_true : padOk = true := by decide +kernel
-
-end FastQr.Finite
+/- aggregator: the small tier-K tables, each in its own module -/
+import FastQr.Finite.TablesKeepLast
+import FastQr.Finite.TablesPercent
+import FastQr.Finite.TablesMasks
+import FastQr.Finite.TablesPad
